@@ -2,7 +2,7 @@
 import json
 from collections import Counter
 
-from lib import vf, gensrv, defermerge
+from lib import vf, gensrv, defermerge, wire
 from checks import c01
 
 
@@ -74,6 +74,90 @@ def judge(r, m):
     return tags, why, spec_bad, mj
 
 
+def _canon_inc(p):
+    return (p.get("path") if isinstance(p.get("path"), str) else "/".join(str(x) for x in (p.get("path") or [])),
+            p.get("label") or "", json.dumps(p.get("data"), sort_keys=True),
+            tuple(sorted(("/".join(str(x) for x in (e.get("path") or [])) if not isinstance(e.get("path"), str) else e["path"]) + " :: " + e["message"]
+                         for e in p.get("errors") or [])))
+
+
+def on_the_wire(ctx, b, cfg, results, dist, nontriv):
+    """multipart/mixed (with batching of incremental payloads) and SSE over real connections: what arrives is the
+    executor's payload sequence - same initial data, same set of groups - hasNext is true on every part / event
+    but the last, the stream is closed (closing boundary / `event: complete` last)."""
+    n = 60 if ctx.tier == "quick" else 600
+    picked = [r for r in results if not r.get("gateErrors") and r.get("payloads") and len(r["payloads"]) > 1
+              and not r["query"].startswith("mutation")][:n]
+    cases = []
+    for k, r in enumerate(picked):
+        plan = r.get("plan")
+        if plan is None:
+            continue
+        for tr, extra in (("multipart", {"deliveryTimeoutMs": [0, 30, 200][k % 3]}), ("sse", {})):
+            c = {"id": "%s/%s" % (r["id"], tr), "query": r["query"], "variables": r.get("variables"), "plan": plan,
+                 "transport": tr, "timeoutMs": 6000, "fullBody": True}
+            c.update(extra)
+            cases.append((c, r))
+    if not cases:
+        return {"cases": 0, "as_stated": 0}, []
+    rc, so, se = vf.sh([b, "-mode", "http", "-maxhung", "3"], inp="\n".join(json.dumps(c) for c, _ in cases) + "\n", timeout=1800)
+    if rc != 0:
+        return {"cases": len(cases), "as_stated": 0}, [{"kind": "crash", "config": cfg, "where": "incremental transports", "stderr": se[-3000:],
+                                                         "shape": {"crash": True, "where": "wire"}}]
+    out = [json.loads(l) for l in so.split("\n") if l]
+    bad = []
+    okc = 0
+    for (c, r), h in zip(cases, out):
+        why = []
+        P = r["payloads"]
+        want_groups = sorted(_canon_inc(p) for p in P[1:])
+        body = h.get("body") or ""
+        if h.get("hung"):
+            why.append("response did not end")
+        elif c["transport"] == "multipart":
+            parts, closed, problems = wire.parse_multipart(body)
+            why += problems
+            dist["wire:multipart" + (":batched" if any(len(p.get("incremental") or []) > 1 for p in parts) else "")] += 1
+            if not closed:
+                why.append("no closing boundary")
+            if not parts:
+                why.append("no parts")
+            else:
+                flags = [bool(p.get("hasNext")) for p in parts]
+                if flags != [True] * (len(parts) - 1) + [False]:
+                    why.append("hasNext of the parts is %s" % flags)
+                if parts[0].get("data") != P[0]["data"]:
+                    why.append("initial data differs from the executor's")
+                got = sorted(_canon_inc(x) for p in parts[1:] for x in (p.get("incremental") or []))
+                if got != want_groups:
+                    why.append("incremental payloads differ from the executor's (%d vs %d)" % (len(got), len(want_groups)))
+        else:
+            nexts, complete, last, problems = wire.parse_sse(body)
+            why += problems
+            dist["wire:sse"] += 1
+            if not complete or not last:
+                why.append("`event: complete` missing or not last")
+            if not nexts:
+                why.append("no next event")
+            else:
+                flags = [bool(p.get("hasNext")) for p in nexts]
+                if flags != [True] * (len(nexts) - 1) + [False]:
+                    why.append("hasNext of the events is %s" % flags)
+                if nexts[0].get("data") != P[0]["data"]:
+                    why.append("initial data differs from the executor's")
+                if sorted(_canon_inc(x) for x in nexts[1:]) != want_groups:
+                    why.append("incremental payloads differ from the executor's")
+        nontriv.add(c["id"])
+        if why:
+            bad.append({"kind": "wire", "config": cfg, "transport": c["transport"], "why": why, "case": c,
+                        "status": h.get("status"), "body": body[:6000], "executor_payloads": P,
+                        "shape": {"wire": c["transport"], "why": why[0].split(" is ")[0][:40]},
+                        "replay": "echo '<case json>' | <generated server %s> -mode http" % cfg})
+        else:
+            okc += 1
+    return {"cases": len(cases), "as_stated": okc}, bad
+
+
 FAILING = ("initial-data", "group-data", "group-set", "group-errors", "initial-errors", "invocations", "recovers", "hung", "crash")
 
 
@@ -102,6 +186,7 @@ def run(ctx):
     dist = Counter()
     nontriv = set()
     total = 0
+    wire_divs = []
     divs = []
     per_cfg = {}
     samples = []
@@ -173,6 +258,11 @@ def run(ctx):
                 samples.append({"config": cfg, "query": r["query"][:500],
                                 "payloads": [(p.get("path"), p.get("label"), p.get("hasNext")) for p in P]})
         per_cfg[cfg] = {"cases": len(lines), "clean": ok}
+        # ---- the same payload sequences as a client of the incremental transports receives them
+        if cfg in ("base", "follow_funcsyn_wl2"):
+            wdivs = on_the_wire(ctx, b, cfg, [r for _, r in lines], dist, nontriv)
+            per_cfg[cfg + "/wire"] = wdivs[0]
+            wire_divs += wdivs[1]
     for cfg, r, mj, why, spec_bad in divs:
         if len(ctx.violations) >= 20:
             break
@@ -185,6 +275,10 @@ def run(ctx):
                "impl": r["payloads"], "plain": (r.get("plain") or {}).get("payloads"), "model": mj, "shape": shape,
                "replay": "echo '<case json>' | <generated server %s> -mode run   (and the same with every @defer removed)" % cfg}
         ctx.violation(rep, no_failing_input=not (spec_bad or any(w in FAILING for w in why)))
+    for rep in wire_divs:
+        if len(ctx.violations) >= 20:
+            break
+        ctx.violation(rep)
     if not proved and not ctx.violations:
         ctx.violation({"kind": "proof", "failing": ctx.proof_failure}, no_failing_input=True)
     ctx.cov.update({
